@@ -71,6 +71,8 @@ def _run_task(task):
     t0 = time.time()
     V = api.Verifier(u, case, mode, sizes, u['budget_ms'] * (3 if _G['tier'] == 'thorough' else 1), seed=_G['seed'],
                      use_cvc5=_G['tier'] == 'thorough')
+    V.baseline_vcs = _G.get('baseline_vcs', set())
+    V.hash_all = _G.get('hash_all', False)
     err = None
     skipped = False
     try:
@@ -96,11 +98,14 @@ def _run_task(task):
                 assumed=sorted(V.assumed), qualnames=u['functions'])
 
 
-def run_property(prop, tier, seed, jobs=None, only=None):
+def run_property(prop, tier, seed, jobs=None, only=None, hash_all=False):
     units = load_contracts(prop)
     if only:
         units = [u for u in units if only in u['name']]
     _G['units'], _G['tier'], _G['seed'] = units, tier, seed
+    from . import report as _rp
+    _G['baseline_vcs'] = _rp.load_baseline_vcs(prop)
+    _G['hash_all'] = hash_all
     tasks = tasks_for(units, tier)
     if not tasks:
         return units, []
@@ -109,7 +114,7 @@ def run_property(prop, tier, seed, jobs=None, only=None):
         results = [_run_task(t) for t in tasks]
     else:
         ctx_ = mp.get_context('fork')
-        with ctx_.Pool(min(jobs, len(tasks))) as pool:
+        with ctx_.Pool(min(jobs, len(tasks)), maxtasksperchild=1) as pool:   # a fresh fork per task: fresh-name counters (and so VC hashes) do not depend on scheduling
             results = pool.map(_run_task, tasks, chunksize=1)
     return units, results
 
@@ -132,7 +137,7 @@ def main(argv=None):
     t0 = time.time()
     from . import report
     try:
-        units, results = run_property(args.prop, args.tier, seed, args.jobs, args.only)
+        units, results = run_property(args.prop, args.tier, seed, args.jobs, args.only, hash_all=args.write_baseline)
     except Exception as e:
         print('CHECKER-ERROR property=%s %s: %s' % (args.prop, type(e).__name__, e))
         traceback.print_exc()
